@@ -290,7 +290,8 @@ static inline uint64_t cxx_vec_bytes(uint64_t n, uint64_t sz) { return n * sz; }
     for (uint64_t __k = 0; __k < m; ++__k) v->p[at + __k] = first[__k]; \
     v->n += m; return v->p + at; } \
   static inline T *vec_##S##_erase_range(vec_##S *v, T *first, T *last) \
-  { uint64_t a = (uint64_t)(first - v->p); uint64_t b = (uint64_t)(last - v->p); \
+  { if (first == last) return first;   /* empty range (also of a value-initialised vector, whose begin() is a null pointer) */ \
+    uint64_t a = (uint64_t)(first - v->p); uint64_t b = (uint64_t)(last - v->p); \
     CXX_ASSERT(a <= b && b <= v->n, "erase range inside vector"); \
     for (uint64_t __k = b; __k < v->n; ++__k) v->p[a + (__k - b)] = v->p[__k]; \
     v->n -= (b - a); return v->p + a; }
